@@ -528,11 +528,24 @@ func cliItemErr(text string) (string, bool) {
 	return fmt.Sprintf("item %s %s %s %s", m[1], m[2], m[3], cliMsgHex(m[4])), true
 }
 
+// cliErrAnswer canonicalises an error by the lines of its text (errors.Join puts one error per line).
 func cliErrAnswer(err error) string {
-	if s, ok := cliItemErr(err.Error()); ok {
-		return "err " + s
+	lines := strings.Split(err.Error(), "\n")
+	parts := make([]string, len(lines))
+	for i, l := range lines {
+		if s, ok := cliItemErr(l); ok {
+			parts[i] = s
+		} else {
+			parts[i] = "other"
+		}
 	}
-	return "err"
+	if len(parts) == 1 {
+		if parts[0] == "other" {
+			return "err"
+		}
+		return "err " + parts[0]
+	}
+	return "err join " + strings.Join(parts, ";")
 }
 
 var cliStatusNames = map[uint32]string{0: "Success", 1: "OperationFailed", 2: "OperationPending", 3: "OperationUndone"}
@@ -1489,6 +1502,23 @@ func respCase(env *respEnv, api *respAPI, script cliRT, inject bool) {
 				}
 			}
 		}
+		// a fully conforming answer (right counts, every item a success announcing the requested operation
+		// and carrying its registered response type) must be accepted
+		if conform && allOK && !success {
+			good := true
+			for i, it := range seen.items {
+				want := cliPl{kind: 'r', op: api.reqOps[i]}
+				if _, ok := cliRegResp[api.reqOps[i]]; !ok {
+					want.kind = 'u'
+				}
+				if it.op != api.reqOps[i] || it.pl != want {
+					good = false
+				}
+			}
+			if good {
+				cliViolate(ctx, "C12", "conforming-accepted", key+":conforming-response-refused", "a conforming response is refused: "+impl, line)
+			}
+		}
 		// failed items must be surfaced with their status, reason and message
 		if conform {
 			text := ""
@@ -1520,6 +1550,9 @@ func respCase(env *respEnv, api *respAPI, script cliRT, inject bool) {
 	cls := strings.SplitN(impl, " ", 2)[0]
 	if strings.HasPrefix(impl, "err item") {
 		cls = "err-item"
+	}
+	if strings.HasPrefix(impl, "err join") {
+		cls = "err-join"
 	}
 	ctx.Res.Count("resp.result=" + cls)
 	if !received {
@@ -1623,7 +1656,7 @@ func respDialCase(ctx *Ctx, clientVers []cliVer, script cliRT, inject bool) {
 }
 
 // respItems enumerates the abstract items for a requested operation.
-func respItems(reqOp uint32, inject bool, dial bool) []cliItem {
+func respItems(reqOp uint32, inject bool, dial bool, alsoOps ...uint32) []cliItem {
 	cliInitTypes()
 	other := cliOpLocate
 	if reqOp == cliOpLocate {
@@ -1652,6 +1685,17 @@ func respItems(reqOp uint32, inject bool, dial bool) []cliItem {
 				pls := []cliPl{{kind: 'n'}, right, {kind: 'r', op: other}, {kind: 'u', op: opaqueOp}}
 				if inject {
 					pls = append(pls, cliPl{kind: 'q', op: reqOp})
+				}
+				// in a batch: the response type of an operation requested at ANOTHER position
+				for _, o := range alsoOps {
+					if o != reqOp && o != other {
+						if op == reqOp {
+							pls = append(pls, cliPl{kind: 'r', op: o})
+						} else if op == other && st == 0 && re == 0 {
+							// ... announced by the item itself (reachable on the wire)
+							out = append(out, cliItem{op: o, pl: cliPl{kind: 'r', op: o}})
+						}
+					}
 				}
 				for _, pl := range pls {
 					it := cliItem{op: op, status: st, reason: re, pl: pl}
@@ -1807,7 +1851,7 @@ func runResp(ctx *Ctx) {
 			if n > 0 {
 				firstOp = api.reqOps[0]
 			}
-			first := respItems(firstOp, inject, false)
+			first := respItems(firstOp, inject, false, api.reqOps...)
 			// one item: exhaustive
 			if n <= 1 || ctx.Thor {
 				for _, h := range hdrs {
@@ -1825,7 +1869,7 @@ func runResp(ctx *Ctx) {
 			if n > 1 {
 				secondOp = api.reqOps[1]
 			}
-			second := respItems(secondOp, inject, false)
+			second := respItems(secondOp, inject, false, api.reqOps...)
 			switch {
 			case n == 2 && ctx.Thor && inject:
 				for _, h := range hdrs {
@@ -1849,7 +1893,7 @@ func runResp(ctx *Ctx) {
 				}
 			}
 			if n == 3 {
-				third := respItems(api.reqOps[2], inject, false)
+				third := respItems(api.reqOps[2], inject, false, api.reqOps...)
 				for k := 0; k < ctx.N(1500, 20000); k++ {
 					h := int32(3)
 					if r.Chance(1, 5) {
